@@ -221,7 +221,14 @@ def isBlob : Obj ByteArray → Bool | .blob _ => true | _ => false
 /-- choose an object of the cache: `<k>` the k-th (sorted, modulo) among `cands`; `m<k>` the k-th manifest;
 `p<hexpath>` the object holding the content of the workspace file at that path -/
 def pickObj (w : World ByteArray) (sel : String) (blobsOnly : Bool) : Option Digest :=
-  if sel.startsWith "p" then
+  if sel.startsWith "r" then
+    -- the object RECORDED for the artifact (input or output of some stage) with this path, e.g. the manifest of a directory
+    let ap := unhex (sel.drop 1).toString
+    let arts := w.idx.flatMap fun (_, stg) => stg.outputs ++ stg.inputs
+    match arts.find? (fun a => a.path == ap && a.sum != "" && w.store.has a.sum) with
+    | some a => some a.sum
+    | none => none
+  else if sel.startsWith "p" then
     match getPath w.ws (Path.comps (unhex (sel.drop 1).toString)) with
     | some (.link (.obj d)) => if w.store.has d then some d else none
     | some (.file c) => let d := H c; if w.store.has d then some d else none
